@@ -63,18 +63,18 @@ type Options struct {
 }
 
 type Canon struct {
-	Info   *types.Info
-	Fset   *token.FileSet
-	Opt    Options
-	names  map[types.Object]string
-	subst  map[types.Object]string
+	Info    *types.Info
+	Fset    *token.FileSet
+	Opt     Options
+	names   map[types.Object]string
+	subst   map[types.Object]string
 	nAssign map[types.Object]int
-	nlocal int
-	Notes  []string
-	params map[types.Object]bool
+	nlocal  int
+	Notes   []string
+	params  map[types.Object]bool
 	// RangeBind: range key object -> label
-	bind map[types.Object]string
-	rangeDepth int
+	bind        map[types.Object]string
+	rangeDepth  int
 	nTypeSwitch int
 }
 
